@@ -6,6 +6,7 @@ import (
 	"fmt"
 	"math"
 	"sort"
+	"strings"
 	"time"
 
 	"github.com/buildbarn/bb-storage/pkg/proto/iscc"
@@ -272,7 +273,7 @@ var tierDurations = []time.Duration{
 // get the default of 0.5).
 func genTieredStats(rt *rapid.T, classes []uint32) *iscc.PreviousExecutionStats {
 	st := &iscc.PreviousExecutionStats{SizeClasses: map[uint32]*iscc.PerSizeClassStats{}}
-	samples := rapid.SampledFrom([]int{6, 12, 32, 100}).Draw(rt, "tierSamples")
+	samples := rapid.SampledFrom([]int{6, 12, 32, 64}).Draw(rt, "tierSamples")
 	for i, c := range classes {
 		b := &iscc.PerSizeClassStats{}
 		tier := rapid.IntRange(0, len(tierDurations)).Draw(rt, "tier")
@@ -342,12 +343,29 @@ func renderStats(st *iscc.PreviousExecutionStats) string {
 	for _, k := range keys {
 		b := st.SizeClasses[k]
 		s += fmt.Sprintf("%d:[", k)
-		for i, e := range b.GetPreviousExecutions() {
-			if i > 0 {
+		// Runs of identical samples are rendered as "S(..)x12".
+		prev, run := "", 0
+		flush := func() {
+			if run == 0 {
+				return
+			}
+			if !strings.HasSuffix(s, "[") {
 				s += " "
 			}
-			s += renderExecution(e)
+			s += prev
+			if run > 1 {
+				s += fmt.Sprintf("x%d", run)
+			}
 		}
+		for _, e := range b.GetPreviousExecutions() {
+			if r := renderExecution(e); r == prev {
+				run++
+			} else {
+				flush()
+				prev, run = r, 1
+			}
+		}
+		flush()
 		s += fmt.Sprintf("]p=%v ", b.GetInitialPageRankProbability())
 	}
 	if st.GetLastSeenFailure() != nil {
